@@ -34,14 +34,22 @@ def cases(draw, tier):
     if mode in ('mutant', 'same') and draw(st.integers(0, 7)) == 0:
         # very many outputs (the same few gates listed again and again): counts beyond 256
         labs = [g[0] for g in left['gates']]
-        many = draw(st.sampled_from([256, 257, 300]))
+        many = draw(st.sampled_from([256, 257, 300, 17, 20, 33, 40, 65, 100]))
         k0 = draw(st.integers(0, 40))
         left = dict(left, outputs=[labs[(k0 + q * (1 + q % 3)) % len(labs)] for q in range(many)])
     n, m = len(left['inputs']), len(left['outputs'])
     if mode in ('mutant', 'same'):
         right = {'inputs': list(left['inputs']), 'gates': [list(g) for g in left['gates']],
                  'outputs': list(left['outputs']), 'style': left['style']}
-        if mode == 'mutant':
+        if mode == 'mutant' and m > 4 and draw(st.booleans()):
+            # the two sides differ at ONE output position only (first, last or somewhere)
+            pos = draw(st.sampled_from([m - 1, m - 1, 0, draw(st.integers(0, m - 1))]))
+            flip = '__flip__'
+            while any(g[0] == flip for g in right['gates']):
+                flip += '_'
+            right['gates'].append([flip, 'NOT', [right['outputs'][pos]]])
+            right['outputs'][pos] = flip
+        elif mode == 'mutant':
             cand = [i for i, g in enumerate(right['gates']) if g[1] != 'INPUT']
             if cand:
                 i = cand[draw(st.integers(0, len(cand) - 1))]
@@ -132,7 +140,7 @@ def check_miter(case):
     pr = wellformed.problems(miter)
     if pr:
         raise Violation('wellformed', '; '.join(pr[:3]))
-    cls = {'mode:' + case['mode'], f'm={min(m, 3)}{"+" if m > 3 else ""}'} | ({'outputs>256'} if m > 256 else set())
+    cls = {'mode:' + case['mode'], f'm={min(m, 3)}{"+" if m > 3 else ""}'} | ({'outputs>256'} if m > 256 else set()) | ({'outputs>16'} if m > 16 else set())
     if case.get('prelude'):
         cls.add('prelude:' + case['prelude'])
     if cr is cl:
@@ -159,9 +167,9 @@ SPEC = {
              'from the reference tables, compared with the miter through cirbo evaluate (all 2^n rows), the '
              'reference evaluation of the miter netlist, and is_circuit_satisfiable; operand snapshots; '
              'wellformed(miter). Non-trivial: the circuits differ on some but not all rows.'
-             ' Added during the build: operands listing 256-300 outputs, zero-input operands, one object on both sides, name variants incl. library-looking ones, a rebuilt pairwise-xor gadget in the same process.'),
+             ' Added during the build: operands listing 17-300 outputs (also differing at one position only), zero-input operands, one object on both sides, name variants incl. library-looking ones, a rebuilt pairwise-xor gadget in the same process.'),
     'assumptions': ['pysat stand-in (z3) decides the miter CNF'],
     'subs': [Sub('miter', cases, check_miter, {'quick': 2500, 'thorough': 150000})],
     'required_classes': {'miter': ['m=1', 'm=2', 'shared_labels', 'output_is_input', 'dup_output',
-                                   'shape_mismatch', 'mode:mutant', 'mode:independent', 'outputs>256']},
+                                   'shape_mismatch', 'mode:mutant', 'mode:independent', 'outputs>256', 'outputs>16']},
 }
